@@ -43,6 +43,7 @@ type rcase struct {
 	D        int64       `json:"d"`    // deadline / cancellation instant (ns after start)
 	Clocks   []clockSpec `json:"clocks"`
 	Second   int64       `json:"second_call_at"` // <0: none; else a second collection starts at this instant
+	More     int         `json:"more_attempts,omitempty"` // further attempts on the same collector, 1 ns apart, after the second one
 	WrongLen int         `json:"wrong_len"`      // 0: correct; else len(ms) = n + WrongLen
 }
 
@@ -149,19 +150,30 @@ func run(c rcase) (res outcome) {
 			wantRet = latest
 		}
 		// optional overlapping second collection on the same collector
-		var secondPanic any
+		type attempt struct {
+			at int64
+			p  any
+		}
+		var attempts []attempt
 		secondDone := make(chan struct{})
 		if c.Second >= 0 {
 			out.overlap = c.Second < wantRet
 			go func() {
 				defer close(secondDone)
 				time.Sleep(time.Duration(c.Second))
-				ms2 := make([]measurements.Measurement, 1)
-				secondPanic = capture(func() {
-					col.MeasureClockOffsets(context.Background(), []client.ReferenceClock{&clk{spec: clockSpec{Kind: cAt, At: 0, OK: true}, tag: 1, start: time.Now()}}, ms2)
-				})
-				if secondPanic == nil && ms2[0].Offset != 1 {
-					fail("second collection (started after the first one ended) did not deliver its result")
+				for k := 0; k <= c.More; k++ {
+					if k > 0 {
+						time.Sleep(1)
+					}
+					ms2 := make([]measurements.Measurement, 1)
+					a := attempt{at: c.Second + int64(k)}
+					a.p = capture(func() {
+						col.MeasureClockOffsets(context.Background(), []client.ReferenceClock{&clk{spec: clockSpec{Kind: cAt, At: 0, OK: true}, tag: 1, start: time.Now()}}, ms2)
+					})
+					if a.p == nil && ms2[0].Offset != 1 {
+						fail("collection attempt %d at %d was admitted but did not deliver its result", k+2, a.at)
+					}
+					attempts = append(attempts, a)
 				}
 			}()
 		} else {
@@ -241,15 +253,18 @@ func run(c rcase) (res outcome) {
 				fail("result slice changed after the collection had returned (position %d: %v -> %v)", i, snap[i].Offset, ms[i].Offset)
 			}
 		}
-		if c.Second >= 0 && c.Second != wantRet {
-			if c.Second < wantRet {
-				if secondPanic == nil {
-					fail("a second collection started at %d while the first was in progress (until %d) was not refused", c.Second, wantRet)
-				} else if !strings.Contains(fmt.Sprint(secondPanic), "in progress") {
-					fail("overlapping collection refused with an unexpected panic: %v", secondPanic)
+		for k, a := range attempts {
+			switch {
+			case a.at < wantRet:
+				if a.p == nil {
+					fail("collection attempt %d, started at %d while the first collection was in progress (until %d), was not refused (earlier attempts refused: %d)", k+2, a.at, wantRet, k)
+				} else if !strings.Contains(fmt.Sprint(a.p), "in progress") {
+					fail("overlapping collection refused with an unexpected panic: %v", a.p)
 				}
-			} else if secondPanic != nil {
-				fail("a second collection started at %d after the first ended (%d) panicked: %v", c.Second, wantRet, secondPanic)
+			case a.at > wantRet:
+				if a.p != nil {
+					fail("collection attempt %d started at %d after the first ended (%d) panicked: %v", k+2, a.at, wantRet, a.p)
+				}
 			}
 		}
 	})
@@ -299,11 +314,12 @@ func genCase(t *rapid.T) rcase {
 	case 1, 2, 3:
 		// instant 0 is the start of the first collection itself: which of two simultaneous starts wins is unspecified
 		c.Second = rapid.OneOf(rapid.Int64Range(1, 3*c.D), rapid.SampledFrom([]int64{1, max(1, c.D-1), c.D + 1})).Draw(t, "second")
+		c.More = rapid.SampledFrom([]int{0, 0, 1, 2, 3}).Draw(t, "more-attempts")
 	}
 	return c
 }
 
-var rec = ev.New("c16/collect", "rapid: 0..12 scripted reference clocks inside a synctest bubble (virtual time), stop by deadline D, manual cancellation at D, or none; per clock a completion time from {0, D-1, D, D+1, 3D, range}, 'returns when cancelled', or 'returns Extra after cancellation', success (unique tag) or error; result slice pre-filled with sentinels; optional second collection on the same collector at a generated instant; optional wrong-length slice; built with -race. Oracle: return instant == min(stop, latest completion) exactly; front of the slice = each in-time success once (those completing exactly at the stop instant optional), rest untouched, unchanged after late results arrive; bubble exit finds no blocked goroutine; overlapping collection refused with the 'in progress' panic, later one works; wrong length refused. Non-trivial: >= 1 clock completing at/after the stop instant, or an overlapping second call; distinct by case hash")
+var rec = ev.New("c16/collect", "rapid: 0..12 scripted reference clocks inside a synctest bubble (virtual time), stop by deadline D, manual cancellation at D, or none; per clock a completion time from {0, D-1, D, D+1, 3D, range}, 'returns when cancelled', or 'returns Extra after cancellation', success (unique tag) or error; result slice pre-filled with sentinels; optional second collection on the same collector at a generated instant, followed by 0..3 further attempts 1 ns apart; optional wrong-length slice; built with -race. Oracle: return instant == min(stop, latest completion) exactly; front of the slice = each in-time success once (those completing exactly at the stop instant optional), rest untouched, unchanged after late results arrive; bubble exit finds no blocked goroutine; every overlapping attempt refused with the 'in progress' panic (also after an earlier attempt was refused), later ones work; wrong length refused. Non-trivial: >= 1 clock completing at/after the stop instant, or an overlapping second call; distinct by case hash")
 
 func TestPropCollect(t *testing.T) {
 	vt.Check(t, 15000, 150000, func(t *rapid.T) {
